@@ -123,6 +123,8 @@ func genCLICases(w *caseWriter, bin string, rng *rand.Rand, st *pkgStats, tier s
 			{"out/cost$VERIF_UNSET_VARIABLE" + exts[format], "file"}, {"out/${VERIF_UNSET_VARIABLE}x" + exts[format], "file"},
 			// the target is a symbolic link to the file that is to be (re)written: the package goes where the link points
 			{"out/latest" + exts[format], "link"},
+			// existing directories whose last element has a dot in it
+			{"outdir.d", "dir"}, {"out/v1.2.3", "dir"}, {".packages", "dir"},
 		}
 		for _, tc := range targets {
 			for _, flag := range []string{format, ""} {
@@ -130,6 +132,9 @@ func genCLICases(w *caseWriter, bin string, rng *rand.Rand, st *pkgStats, tier s
 				run := filepath.Join(work, fmt.Sprintf("run%d", n))
 				must(os.MkdirAll(filepath.Join(run, "out"), 0o755))
 				must(os.MkdirAll(filepath.Join(run, "outdir"), 0o755))
+				if tc.kind == "dir" {
+					must(os.MkdirAll(filepath.Join(run, tc.target), 0o755))
+				}
 				// the target already exists and is longer than the package: it is replaced, not written over
 				if tc.kind == "file" && flag == "" && format != "archlinux" && strings.HasSuffix(tc.target, exts[format]) {
 					must(os.WriteFile(filepath.Join(run, tc.target), bytes.Repeat([]byte("bytes of an older, longer file\n"), 40000), 0o644))
